@@ -48,6 +48,9 @@ pub struct SymSpec {
     pub seg: usize,
     pub off: u64,
     pub defined: bool,
+    /// st_info (binding << 4 | type); None: GLOBAL FUNC
+    #[serde(default)]
+    pub info: Option<u8>,
 }
 
 #[derive(Serialize, Deserialize, Clone, Debug, PartialEq)]
@@ -135,7 +138,7 @@ pub fn build(spec: &ImgSpec) -> Built {
         };
         let value = spec.segs.get(s.seg).map(|g| g.vaddr + s.off).unwrap_or(0);
         put32(&mut symtab, name_off);
-        symtab.push(0x12); // GLOBAL FUNC
+        symtab.push(s.info.unwrap_or(0x12)); // default: GLOBAL FUNC
         symtab.push(0);
         put16(&mut symtab, if s.defined { 1 } else { 0 });
         put64(&mut symtab, value);
@@ -197,7 +200,12 @@ pub fn build(spec: &ImgSpec) -> Built {
             put64(&mut out, off);
             put64(&mut out, vaddr);
             put64(&mut out, vaddr);
-            put64(&mut out, e.len);
+            // file size: never more than the enclosing segment has in the file (a RELRO range may cover bss)
+            let in_file = match e.inside {
+                Some(i) if i < spec.segs.len() => e.len.min(spec.segs[i].filesz.saturating_sub(e.off)),
+                _ => e.len,
+            };
+            put64(&mut out, in_file);
             put64(&mut out, e.len);
             put64(&mut out, 8);
         }
